@@ -12,16 +12,16 @@ import (
 )
 
 type Obligation struct {
-	Name    string
-	Func    string
-	Kind    string // post pre safe inv-init inv-pres frame vacuity lemma
-	Hyps    []*Term
-	Goal    *Term
-	X       *Exec
-	Pos     string
-	Src     string // contract clause text, if any
-	ExpectSat bool // vacuity probes: must NOT be unsat
-	Vars    map[string]string // readable names -> SMT constant names (for models)
+	Name      string
+	Func      string
+	Kind      string // post pre safe inv-init inv-pres frame vacuity lemma
+	Hyps      []*Term
+	Goal      *Term
+	X         *Exec
+	Pos       string
+	Src       string            // contract clause text, if any
+	ExpectSat bool              // vacuity probes: must NOT be unsat
+	Vars      map[string]string // readable names -> SMT constant names (for models)
 }
 
 type frame struct {
@@ -40,38 +40,40 @@ type frame struct {
 }
 
 type Exec struct {
-	eng       *Engine
-	w         *World
-	key       string
-	fi        *FuncInfo
-	fc        *FuncContract
-	model     *Model
-	sym       *SymTab
-	heap0     map[string]*Term
-	heapSorts map[string]Sort
-	obls      []*Obligation
-	entry     *State
-	entryVals map[string]Val // param name -> entry value
-	heapified map[types.Object]bool
-	usedSpecs map[string]bool
-	heapTrace map[string]bool
-	specOrigArgs []Val
-	trusted   map[string]bool
-	ord       map[string]int
-	frames    []*frame
-	closures  map[int64]*closure
-	closureID int64
-	global0   map[types.Object]*Term
-	notes     []string
+	eng             *Engine
+	w               *World
+	key             string
+	fi              *FuncInfo
+	fc              *FuncContract
+	model           *Model
+	sym             *SymTab
+	heap0           map[string]*Term
+	heapSorts       map[string]Sort
+	heapElemTy      map[string]*Ty // element / pointee type of H_ and P_ heaps (for stored-value invariants)
+	obls            []*Obligation
+	entry           *State
+	entryVals       map[string]Val // param name -> entry value
+	heapified       map[types.Object]bool
+	usedSpecs       map[string]bool
+	heapTrace       map[string]bool
+	specOrigArgs    []Val
+	invFacts        map[*Term]bool // path-condition entries that are assumed loop invariants
+	trusted         map[string]bool
+	ord             map[string]int
+	frames          []*frame
+	closures        map[int64]*closure
+	closureID       int64
+	global0         map[types.Object]*Term
+	notes           []string
 	pendingCaptured map[string]Val
 	pendingCapObjs  map[string]*types.Var // captured variables the callee literal assigns (in/out)
-	selfVar         *types.Var           // when verifying a literal: the variable it is bound to (recursion)
+	selfVar         *types.Var            // when verifying a literal: the variable it is bound to (recursion)
 	capturedSet     map[string]*types.Var
-	captured  []*types.Var // for function literals verified on their own: variables of the enclosing function
-	fieldAsg  map[types.Object]map[int]bool
-	scopes    []*frameScope
-	retPos    []token.Pos
-	depth     int
+	captured        []*types.Var // for function literals verified on their own: variables of the enclosing function
+	fieldAsg        map[types.Object]map[int]bool
+	scopes          []*frameScope
+	retPos          []token.Pos
+	depth           int
 }
 
 type closure struct {
@@ -103,7 +105,18 @@ func (x *Exec) oblige(st *State, kind, label string, goal *Term, pos token.Pos, 
 	if label != "" {
 		name += ":" + label
 	}
-	o := &Obligation{Name: name, Func: x.key, Kind: kind, Hyps: append([]*Term(nil), st.pc...), Goal: x.skolemGoal(goal), X: x, Src: src}
+	sg := x.skolemGoal(goal)
+	if sg != goal && kind != "safe" {
+		// a quantified conjunction: once the variables are constants the
+		// conjuncts are separate (smaller) obligations
+		if parts := splitGoal(sg); len(parts) > 1 {
+			for i, p := range parts {
+				x.oblige(st, kind, fmt.Sprintf("%s.q%d", label, i+1), p, pos, src)
+			}
+			return
+		}
+	}
+	o := &Obligation{Name: name, Func: x.key, Kind: kind, Hyps: append([]*Term(nil), st.pc...), Goal: sg, X: x, Src: src}
 	if pos.IsValid() {
 		o.Pos = x.eng.pos(pos)
 	}
@@ -845,7 +858,23 @@ func (x *Exec) skolemGoal(g *Term) *Term {
 			}
 			m[bv.Name] = x.sym.Fresh("sk_"+hint, bv.Sort)
 		}
-		return x.skolemGoal(substTerm(g.Args[0], m))
+		body := x.skolemGoal(substTerm(g.Args[0], m))
+		// the quantifier's trigger terms, at the skolem constants, are put
+		// into the goal's antecedent under a fresh uninterpreted predicate
+		// (validity is unchanged): hypotheses with the same trigger can
+		// then be instantiated even where a conjunct of the body does not
+		// mention the trigger term itself
+		var hints []*Term
+		for _, p := range g.Pat {
+			t := substTerm(p, m)
+			fn := "hint_" + sortTag(t.Sort)
+			x.sym.Func(fn, []Sort{t.Sort}, SBool)
+			hints = append(hints, mk(fn, SBool, t))
+		}
+		if len(hints) > 0 {
+			return mk("=>", SBool, And(hints...), body)
+		}
+		return body
 	case g.Op == "=>" && len(g.Args) == 2:
 		c := x.skolemGoal(g.Args[1])
 		if c == g.Args[1] {
